@@ -84,12 +84,24 @@ def run_kernel(ctx, unit, sym, kind, bits, length, misalign=0, inplace=False, iv
     if sabotage == 'oracle':
         ks = [ks[1]] + ks[1:]      # must-fail twin: a deliberately wrong reference (whitening with round key 1)
     ivv = rd(riv, 0, iv_len)
-    args = {'cbc_dec': [rin.base, IVA, KEYS, rout.base, length], 'ecb_enc': [rin.base, KEYS, rout.base, length], 'ecb_dec': [rin.base, KEYS, rout.base, length],
+    if kind == 'cntr_job':
+        # by16 VAES CTR takes the job descriptor: build one with concrete pointers/lengths (src = in - 16 with a 16-byte cipher offset)
+        from vlib import native
+        JOBA = 0x440000
+        fl = ['src', 'dst', 'iv', 'enc_keys', 'msg_len_to_cipher_in_bytes', 'cipher_start_src_offset_in_bytes', 'iv_len_in_bytes']
+        offs = native.offsets(ctx, ['#include "intel-ipsec-mb.h"'], [(f, 'offsetof(IMB_JOB, %s)' % f) for f in fl] + [('size', 'sizeof(IMB_JOB)')])
+        rjob = Region('job', JOBA, offs['size'], writable=False)
+        for f, v in (('src', rin.base - 16), ('dst', rout.base), ('iv', IVA), ('enc_keys', KEYS), ('msg_len_to_cipher_in_bytes', length),
+                     ('cipher_start_src_offset_in_bytes', 16), ('iv_len_in_bytes', iv_len)):
+            for i in range(8):
+                rjob.bytes[offs[f] + i] = BitVecVal((v >> (8 * i)) & 0xff, 8)
+        st.regions.append(rjob)
+    args = {'cntr_job': [0x440000], 'cbc_dec': [rin.base, IVA, KEYS, rout.base, length], 'ecb_enc': [rin.base, KEYS, rout.base, length], 'ecb_dec': [rin.base, KEYS, rout.base, length],
             'cntr': [rin.base, IVA, KEYS, rout.base, length, iv_len], 'cfb_one': [rout.base, rin.base, IVA, KEYS, length]}[kind]
     for r, a in zip(ARGREGS, args):
         st.r[r] = bv(a, 64)
     init = {i: st.r[i] for i in (3, 5, 12, 13, 14, 15)}
-    name = '%s len=%d%s%s%s' % (sym, length, ' misaligned' if misalign else '', ' in-place' if inplace else '', ' iv%d' % iv_len if kind == 'cntr' else '')
+    name = '%s len=%d%s%s%s' % (sym, length, ' misaligned' if misalign else '', ' in-place' if inplace else '', ' iv%d' % iv_len if kind in ('cntr', 'cntr_job') else '')
     try:
         fin = E.run(st, sym)
     except (Unsupported, BoundExceeded) as e:
@@ -114,7 +126,7 @@ def run_kernel(ctx, unit, sym, kind, bits, length, misalign=0, inplace=False, iv
                 c = rd(snap_in, 16 * b, 16)
                 p = enc(c, ks, rounds) if kind == 'ecb_enc' else dec(c, ks, rounds)
                 exp += [Extract(8 * k + 7, 8 * k, p) for k in range(16)]
-        elif kind == 'cntr':
+        elif kind in ('cntr', 'cntr_job'):
             if iv_len == 12:
                 ctr0 = Concat(BitVecVal(0x01000000, 32), ivv)       # nonce || 00 00 00 01 (big-endian counter 1)
             else:
@@ -164,9 +176,9 @@ def run_kernel(ctx, unit, sym, kind, bits, length, misalign=0, inplace=False, iv
                 s = term.sexpr()
                 # decrypt kernels read ciphertext (public): only key-dependent terms (which include every plaintext term) are secret
                 return 'keys_' in s or (kind not in ('cbc_dec', 'ecb_dec') and 'in_' in s)
-            for i in range(16):
+            for i in range(32):
                 if tainted(f.v[i]):
-                    leaks.append('xmm%d' % i)
+                    leaks.append('zmm%d' % i)
             for i in (0, 1, 2, 6, 7, 8, 9, 10, 11):
                 # general-purpose registers at KERNEL level: raw key / round-key / plaintext-input bytes are residue; a value that went
                 # through the block primitive (cipher state, keystream, output copies used by the byte-granular tail store) is not
@@ -196,15 +208,24 @@ for bits in (128, 192, 256):
     KERNELS.append(('avx2_t1/aes%d_ecb_by8_avx.asm' % bits, 'aes_ecb_enc_%d_avx' % bits, 'ecb_enc', bits))
     KERNELS.append(('avx2_t1/aes%d_ecb_by8_avx.asm' % bits, 'aes_ecb_dec_%d_avx' % bits, 'ecb_dec', bits))
     KERNELS.append(('avx2_t1/aes%d_cntr_by8_avx.asm' % bits, 'aes_cntr_%d_avx' % bits, 'cntr', bits))
+    # AVX-512 VAES by-16 kernels (the default manager on current server parts); CTR takes the job descriptor
+    KERNELS.append(('avx512_t2/aes_cbc_dec_by16_vaes_avx512.asm', 'aes_cbc_dec_%d_vaes_avx512' % bits, 'cbc_dec', bits))
+    KERNELS.append(('avx512_t2/aes_ecb_vaes_avx512.asm', 'aes_ecb_enc_%d_vaes_avx512' % bits, 'ecb_enc', bits))
+    KERNELS.append(('avx512_t2/aes_ecb_vaes_avx512.asm', 'aes_ecb_dec_%d_vaes_avx512' % bits, 'ecb_dec', bits))
+    KERNELS.append(('avx512_t2/aes_cntr_api_by16_vaes_avx512.asm', 'aes_cntr_%d_submit_vaes_avx512' % bits, 'cntr_job', bits))
 KERNELS.append(('avx2_t1/aes_cfb_avx.asm', 'aes_cfb_128_one_avx', 'cfb_one', 128))
 KERNELS.append(('avx2_t1/aes_cfb_avx.asm', 'aes_cfb_256_one_avx', 'cfb_one', 256))
 KERNELS.append(('sse_t1/aes_cfb_sse.asm', 'aes_cfb_128_one_sse', 'cfb_one', 128))
 KERNELS.append(('sse_t1/aes_cfb_sse.asm', 'aes_cfb_256_one_sse', 'cfb_one', 256))
 
 
-def lengths(kind, quick):
+def lengths(kind, quick, sym=''):
     if kind in ('cbc_dec', 'ecb_enc', 'ecb_dec'):
+        if 'vaes' in sym:
+            return [16 * k for k in ((1, 3, 8, 15, 16, 17, 33) if quick else list(range(1, 36)) + [48, 49, 64, 65])]
         return [16 * k for k in ((1, 2, 7, 8, 9) if quick else range(1, 19))]
+    if kind == 'cntr_job':
+        return [1, 15, 16, 17, 63, 65, 129, 255, 256, 257, 300, 495, 497, 513] if quick else sorted(set(list(range(1, 560, 7)) + [255, 256, 257, 272, 495, 496, 497, 511, 512, 513, 1025]))
     if kind == 'cntr':
         return [1, 15, 16, 17, 47, 128, 129, 143] if quick else list(range(1, 290, 1 if False else 3)) + [128, 129, 256, 257, 272]
     if kind == 'cfb_one':
@@ -238,10 +259,10 @@ def run_family(ctx, prop):
         if not os.path.exists(os.path.join(LIB, unit)):
             ctx.inconclusive.append('unit %s not found' % unit)
             continue
-        ls = lengths(kind, quick)
+        ls = lengths(kind, quick, sym)
         for L in ls:
             tasks.append((unit, sym, kind, bits, L, 0, False, 16, facets, True))
-            if kind == 'cntr':
+            if kind in ('cntr', 'cntr_job'):
                 tasks.append((unit, sym, kind, bits, L, 0, False, 12, facets, True))
         if prop in ('C07', 'C01'):
             L = ls[len(ls) // 2]
@@ -253,8 +274,8 @@ def run_family(ctx, prop):
         tasks.append(('sse_t1/aes128_cbc_dec_by8_sse.asm', 'aes_cbc_dec_128_by8_sse', 'cbc_dec', 128, 48, 0, False, 16, facets, True, 'shrink'))
     if prop == 'C13':
         tasks.append(('sse_t1/aes128_cbc_dec_by8_sse.asm', 'aes_cbc_dec_128_by8_sse', 'cbc_dec', 128, 32, 0, False, 16, facets, False))
-    ctx.bounds['aes_single_buffer_kernels'] = 'aes_cbc_dec_*_by8_sse, aes_ecb_{enc,dec}_*_by8_sse, aes_cntr_*_sse (12- and 16-byte IV, symbolic counter incl. wrap), aes_cfb_*_one_sse; one run per length ' \
-                                              'in %s; keys/IV/counter/data symbolic' % sorted(set(l for k in ('cbc_dec', 'cntr', 'cfb_one') for l in lengths(k, quick)))[:40]
+    ctx.bounds['aes_single_buffer_kernels'] = 'aes_cbc_dec_*, aes_ecb_{enc,dec}_*, aes_cntr_* (12- and 16-byte IV, symbolic counter incl. wrap) in their SSE by8, AVX by8 and AVX-512 VAES by16 forms, aes_cfb_*_one_{sse,avx}; one run per length ' \
+                                              'in %s; keys/IV/counter/data symbolic' % sorted(set(l for k, s in (('cbc_dec', ''), ('cbc_dec', 'vaes'), ('cntr', ''), ('cntr_job', ''), ('cfb_one', '')) for l in lengths(k, quick, s)))[:60]
     tot = dict(steps=0, queries=0)
     with Pool(min(NCPU, max(1, len(tasks)))) as pool:
         for r in pool.imap_unordered(_task, tasks):
